@@ -28,7 +28,7 @@ PROPERTY = "C02"
 CHUNK = {"quick": 24, "thorough": 60}
 PROBES = ["inspect_body", "inspect_header_only", "inspect_failed_parse", "noncanonical_zero_coding",
           "corrupt_forwarded", "corrupt_discarded", "tricky_text", "omitted_trailing_block", "eager_parsing",
-          "body_inspected_twice", "logger_inspector"]
+          "body_inspected_twice", "logger_inspector", "held_copy_inspected_after_other_traffic", "held_copy_resent"]
 COMPONENTS = dict(c06.COMPONENTS)
 COMPONENTS["stub"] = COMPONENTS["stub"] + ["inspectors (passive subscribers / addon hook that only read)"]
 ASSUMPTIONS = c06.ASSUMPTIONS + [
@@ -62,6 +62,10 @@ def gen_plan(rng: random.Random, tier: str) -> dict:
             "twice": rng.random() < 0.3,
             # the GUI's message log as one more inspector: a field filter makes it parse every body it is shown
             "logger": rng.choice([None, None, "name", "field"]),
+            # an addon that takes messages, holds the (still unparsed) copy while other traffic flows, then looks
+            # at it and re-sends it: the late look must still decode *that* datagram
+            "hold": rng.choice([None, None, "some", "all"]),
+            "hold_for": rng.choice([0.0, 0.004, 0.03, 0.12]),
         },
     }
     p_corrupt = rng.choice([0.0, 0.1, 0.3])
@@ -130,7 +134,7 @@ def simplify_plan(plan):
     yield from c06.simplify_plan(plan)
     cfg = plan["cfg"]
     ins = cfg["inspect"]
-    for k in ("session", "region", "addon", "logger"):
+    for k in ("session", "region", "addon", "logger", "hold"):
         if ins.get(k):
             yield {**plan, "cfg": {**cfg, "inspect": {**ins, k: None}}}
     for k in ("session", "region", "addon"):
@@ -239,15 +243,66 @@ def _setup(world, model, oracle, driver, res):
         world.sm.message_logger = wrap
         res.probe("logger_inspector")
 
+    loop = world.env.loop
+    held = {"n": 0}
+
+    def hold(session, region, message):
+        """take() the message, keep the copy across other traffic, inspect it late, send it on."""
+        a = world._current
+        v = world.assoc_owner.get(a.assoc) if a is not None else None
+        if a is None or v is None or message.synthetic or message.finalized or message.name in (
+                "UseCircuitCode", "PacketAck", "StartPingCheck", "CloseCircuit", "DisableSimulator"):
+            return False
+        try:
+            payload = L.socks_unwrap(a.raw)[1] if a.src == v.addr else a.raw
+            pin = L.parse_datagram(payload)
+        except Exception:
+            return False
+        if payload in world.corrupted:
+            return False
+        arrivals_then = len(world.arrivals)
+        copy = message.take()
+        a.meta["held"] = True
+
+        def later():
+            if insp.oracle.stopped or region.circuit is None or not region.circuit.is_alive \
+                    or a.assoc not in world.net.transports:
+                return
+            if len(world.arrivals) > arrivals_then:
+                res.probe("held_copy_inspected_after_other_traffic")
+            try:
+                copy.blocks
+                out = bytes(insp.ser.serialize(copy))
+            except Exception as e:
+                return insp.oracle._violate("C02/message/held-copy-unreadable", name=copy.name, exc=repr(e)[:200])
+            try:
+                pout = L.parse_datagram(out)
+            except Exception as e:
+                return insp.oracle._violate("C02/message/held-copy-unparseable", name=copy.name, exc=repr(e)[:120])
+            canonical = not (pin.flags & L.ZEROCODED) or L.is_canonical_zero_coding(pin.body_raw)
+            same = pout.body_raw == pin.body_raw if canonical else pout.body_plain == pin.body_plain
+            if not same and not only_snan_quieting(pin.body_plain, pout.body_plain):
+                return insp.oracle._violate("C02/message/held-copy-body-differs", name=copy.name,
+                                            body_in=pin.body_plain.hex()[:160], body_out=pout.body_plain.hex()[:160])
+            res.probe("held_copy_resent")
+            region.circuit.send(copy)
+        loop.call_later(cfg.get("hold_for", 0.0), later)
+        return True
+
     class InspectorAddon:
         def handle_lludp_message(self, session, region, message):
+            if cfg.get("hold"):
+                held["n"] += 1
+                if cfg["hold"] == "all" or held["n"] % 3 == 0:
+                    if hold(session, region, message):
+                        return None
             insp.look(message, "addon")
 
         def handle_region_registered(self, session, region):
             if cfg.get("region"):
                 region.message_handler.subscribe("*", lambda m: insp.look(m, "region"))
 
-    if cfg.get("addon") or cfg.get("region"):
+    if cfg.get("addon") or cfg.get("region") or cfg.get("hold"):
         world.addon_manager.FRESH_ADDON_MODULES["hsim-inspector"] = InspectorAddon()
     for spec in world.sessions:
         if cfg.get("session"):
